@@ -281,12 +281,26 @@ impl SocketHandler for FakeSocket {
     fn write_error(&self) {}
 }
 
+/// One real loopback connection per thread, duplicated per case: the state under test only needs a
+/// socket for `socket_ref` (addresses), all bytes come from the scripted `FakeSocket`. A fresh
+/// connection per case leaves tens of thousands of TIME_WAIT entries and exhausts the ephemeral
+/// ports of 127.0.0.1 for whatever runs next.
 fn loopback_pair() -> (TcpStream, StdStream) {
-    let l = StdListener::bind("127.0.0.1:0").expect("bind");
-    let c = StdStream::connect(l.local_addr().unwrap()).expect("connect");
-    let (s, _) = l.accept().expect("accept");
-    s.set_nonblocking(true).unwrap();
-    (TcpStream::from_std(s), c)
+    use std::os::fd::{AsRawFd, FromRawFd};
+    thread_local! {
+        static PAIR: (StdStream, StdStream) = {
+            let l = StdListener::bind("127.0.0.1:0").expect("bind");
+            let c = StdStream::connect(l.local_addr().unwrap()).expect("connect");
+            let (s, _) = l.accept().expect("accept");
+            s.set_nonblocking(true).unwrap();
+            (s, c)
+        };
+    }
+    PAIR.with(|(s, c)| {
+        let s2 = unsafe { std::net::TcpStream::from_raw_fd(libc::dup(s.as_raw_fd())) };
+        let c2 = unsafe { std::net::TcpStream::from_raw_fd(libc::dup(c.as_raw_fd())) };
+        (TcpStream::from_std(s2), c2)
+    })
 }
 
 fn check_expect(case: &ExpectCase) -> CheckResult {
